@@ -93,4 +93,15 @@ theorem already_exists_is_not_is_dir_counterexample :
       = .error FileRef.EEXIST := by
   refine ⟨by rfl, by rfl, by rfl, by rfl⟩
 
+/-- F080 (known finding): the polling driver registers both ends of a splice with epoll, which refuses regular
+files: every splice from or to a regular file fails with `EPERM` there, while io_uring (and `splice(2)`) move
+the bytes -/
+theorem f080_poll_splice_regular_file_counterexample :
+    let s : St := { inodes := [(0, hello)], handles := [(1, ⟨some 0, true, true, 0⟩)],
+                    pipes := [(1, ⟨[], true, true, false, 0, []⟩)] }
+    (St.splice .poll .bothEnds s (.file 1) (.pipe 1) 5 none none).2 = .err EPERM ∧
+    (St.splice .iour .bothEnds s (.file 1) (.pipe 1) 5 none none).2 = .ok 5 ∧
+    (St.splice .poll .pollableEnds s (.file 1) (.pipe 1) 5 none none).2 = .ok 5 := by
+  refine ⟨by rfl, by rfl, by rfl⟩
+
 end Compio.Cex.C08
